@@ -269,11 +269,18 @@ func dialerUpgradeRules(c *Ctx, prop string) {
 		buffered := p.Chose("buffered") == 1
 		cnt := map[string]int{}
 		last := ""
+		afterPut := ""
 		for _, e := range p.Effects {
 			if e.Kind == "call" {
+				if strings.HasPrefix(last, "Put") && !strings.HasPrefix(e.Name, "Put") && e.Name != "Buffered" && afterPut == "" {
+					afterPut = e.Name + " after " + last
+				}
 				cnt[e.Name]++
 				last = e.Name
 			}
+		}
+		if afterPut != "" {
+			problems = append(problems, "a pooled handshake buffer is put back while the handshake still runs ("+afterPut+") "+desc)
 		}
 		brRet := fold.Show(ret[0])
 		if gotErr == "nil" && buffered {
